@@ -39,6 +39,8 @@ type FileSpec struct {
 	ErrAt     int   // >=0: Read fails with EIO once this offset is reached (-1 = never)
 	ChunkSize int   // >0: reads return at most this many bytes
 	OpenErr   error // non-nil: Open fails
+	OpenOnly  int   // >0: only the first n opens succeed, later ones fail with ENOENT (the file was removed meanwhile)
+	nOpens    int
 	StallAt   int           // >0: the read that reaches this offset first blocks for StallFor (a pipe whose writer pauses)
 	StallFor  time.Duration
 	stalled   bool
@@ -281,6 +283,11 @@ func Open(name string) (*File, error) {
 	}
 	if s.OpenErr != nil {
 		return nil, &fs.PathError{Op: "open", Path: name, Err: s.OpenErr}
+	}
+	s.nOpens++
+	if s.OpenOnly > 0 && s.nOpens > s.OpenOnly {
+		simrt.Fault("file-vanished")
+		return nil, &fs.PathError{Op: "open", Path: name, Err: syscall.ENOENT}
 	}
 	pos := 0
 	return &File{w: w, spec: s, pos: &pos, name: name}, nil
